@@ -323,7 +323,23 @@ func (c13) Run(t *testing.T, tape *core.Tape, rcx *RunCtx) *core.Result {
 	leak, pv := core.Bubble(t, func() {
 		sim = core.NewSim(tape)
 		sim.Record = rcx.Record
-		sim.MaxSteps = 40*(sc.Lines+nrec) + 6*len(payload) + 20000
+		// Liveness is judged against what the parser has been given so far, not against a
+		// fixed cost: at any moment it may have used 20000 + 60 steps per byte handed to it
+		// + 50 per Read call + 200 per delivered record. A correct parser may read far ahead
+		// of its parsing (so the allowance is cumulative), but one that keeps running after
+		// the input has ended cannot stay below a bound that has stopped growing.
+		sim.MaxSteps = 400*len(payload) + 400*(sc.Lines+nrec) + 100000 // backstop only
+		sim.OnQuiesce = func() string {
+			consumed, reads := len(payload), int64(0)
+			if rd != nil {
+				consumed, reads = rd.Consumed(), rd.Reads
+			}
+			allowed := 20000 + 60*consumed + 50*int(reads) + 200*len(got)
+			if sim.Steps > allowed {
+				return fmt.Sprintf("%d scheduler steps used, %d allowed for %d bytes handed over in %d reads and %d records delivered", sim.Steps, allowed, consumed, reads, len(got))
+			}
+			return ""
+		}
 		if entry < 2 {
 			rd = core.NewSimReader(sim, tape, payload, cuts, len(payload) > 20000)
 			sc.Reader = rd.ModeName()
@@ -418,8 +434,8 @@ func (c13) Run(t *testing.T, tape *core.Tape, rcx *RunCtx) *core.Result {
 		res.Class, res.Detail = "machinery:scheduler", sim.MachineryError()
 	case len(sim.Panics) > 0:
 		res.Class, res.Detail = violation("panic"), fmt.Sprintf("%s in task %s at %s", sim.Panics[0].Value, sim.Panics[0].Task, sim.Panics[0].Site)
-	case sim.End == core.EndBudget || sim.End == core.EndTaskCap:
-		res.Class, res.Detail = violation("termination"), fmt.Sprintf("parser still running after %d scheduler steps (%d bytes, %d lines)", sim.Steps, len(payload), sc.Lines)
+	case sim.End == core.EndBudget || sim.End == core.EndTaskCap || sim.End == core.EndStopped:
+		res.Class, res.Detail = violation("termination"), fmt.Sprintf("parser still running after %d scheduler steps (%d bytes, %d lines) %s", sim.Steps, len(payload), sc.Lines, sim.StopMessage())
 	case sim.End == core.EndDeadlock:
 		res.Class, res.Detail = violation("deadlock"), fmt.Sprintf("parser blocked with nothing left to run; consumer received %d of %d records, channel closed=%v", len(got), nrec, closed)
 	case streaming && !closed:
